@@ -200,6 +200,9 @@ func runReplay(file, dir string) error {
 			in, out = replayKV(r)
 		case "sqlhist":
 			in, out = replaySQL(r)
+		case "schedhist":
+			id, _ := strconv.Atoi(toks[0])
+			in, out = replaySched(r, id)
 		default:
 			return fmt.Errorf("replay: unsupported case kind %s", toks[1])
 		}
